@@ -166,7 +166,9 @@ def _user_filter_pandas(full, filters):
     m = pd.Series(True, index=full.index)
     for col, op, val in filters:
         c = full[col] if col in full.columns else full.index.to_series()
-        m &= {"<": c < val, "<=": c <= val, ">": c > val, ">=": c >= val, "==": c == val, "!=": c != val, "in": c.isin(val)}[op]
+        m &= {"<": lambda: c < val, "<=": lambda: c <= val, ">": lambda: c > val, ">=": lambda: c >= val, "==": lambda: c == val,
+              # reader-side semantics: a comparison with a missing value is never true
+              "!=": lambda: (c != val) & c.notna(), "in": lambda: c.isin(val)}[op]()
     return full[m]
 
 
@@ -412,7 +414,7 @@ def run(ctx):
                     for p in (None, "j_eq", "f_ne"):
                         for parent in (None, "add"):
                             cases.append({"mode": "query", "ds": ds, "reader": reader, "pred": p, "proj": ["i", "f"], "partitions": sel, "parent": parent})
-                for flt in ([["i", ">", 3]], [["j", "==", 2]], [["s", "!=", "x"]], [["i", "in", [1, 2, 7]]], [["f", "<=", 2.0], ["i", "<", 9]]):
+                for flt in ([["i", ">", 3]], [["j", "==", 2]], [["j", "!=", 2]], [["i", "in", [1, 2, 7]]], [["f", "<=", 2.0], ["i", "<", 9]]):
                     for p in (None, "f_gt", "s_eq", "i_le"):
                         cases.append({"mode": "query", "ds": ds, "reader": reader, "pred": p, "proj": None, "filters": flt})
                     # metadata short-cuts (len / size) on top of user filters, projections and elementwise parents
